@@ -10,6 +10,17 @@ for id in $ids; do
   e=$(( $(date +%s) - s ))
   echo "$id exit=$code ${e}s $(echo "$out" | grep -c '^KNOWN-FINDING') known $(echo "$out" | grep -c '^VIOLATION') violations :: $(echo "$out" | tail -1 | cut -c1-150)"
   [ $code -ne 0 ] && rc=1
+  # evaluation counts of seed-1 runs feed the level texts of MANIFEST.json (tools/mkmanifest.py)
+  if [ "$SEED" = 1 ] && [ $code -eq 0 ]; then
+    n=$(echo "$out" | tail -1 | grep -o 'evaluations=[0-9]*' | cut -d= -f2)
+    [ -n "$n" ] && python3 - "$id" "$TIER" "$n" <<'PY'
+import json,sys,os
+p='/verif/tools/counts.json'
+c=json.load(open(p)) if os.path.exists(p) else {}
+c.setdefault(sys.argv[1],{})[sys.argv[2]]=int(sys.argv[3])
+json.dump(c,open(p,'w'),indent=1,sort_keys=True)
+PY
+  fi
 done
 python3-vt tools/validate.py | grep -v '^ok'
 exit $rc
